@@ -11,6 +11,7 @@
 #![allow(dead_code)]
 #[path = "../../harness/src/rng.rs"]
 mod rng;
+mod api;
 mod devices;
 mod illdim;
 mod longrun;
@@ -60,7 +61,9 @@ fn main() {
         // (every rrtk call inside the sections is under panic capture already; the outer guard only
         // turns an escape into an observation instead of a dead process)
         let pwr = &pw;
-        let sections: [(&str, &dyn Fn(&mut Tr, &mut G)); 16] = [
+        // the fixed edge pools give the same answer in every program: complete only in every 8th
+        let full = i % 8 == 1;
+        let sections: [(&str, &dyn Fn(&mut Tr, &mut G)); 19] = [
             ("section.quantities", &scalars::quantities),
             ("section.states", &scalars::states),
             ("section.commands", &scalars::commands),
@@ -77,6 +80,9 @@ fn main() {
             ("section.wrappers", &devices::wrappers),
             ("section.exact_points", &move |tr: &mut Tr, g: &mut G| streams::exact_points(tr, g, pwr)),
             ("section.interference", &longrun::interference),
+            ("section.api.compare", &move |tr: &mut Tr, g: &mut G| api::compare(tr, g, full)),
+            ("section.api.convert", &move |tr: &mut Tr, g: &mut G| api::convert(tr, g, full)),
+            ("section.api.setters", &move |tr: &mut Tr, g: &mut G| api::setters(tr, g, full)),
         ];
         for (name, f) in sections {
             guarded(&mut tr, name, |tr| f(tr, &mut g));
@@ -95,6 +101,9 @@ fn main() {
             let mut g2 = G::new(seed, 1902, i);
             if catch(|| illdim::illdim(&mut tr, &mut g2)).is_none() {
                 tr.u_word("ill.section", "", "panic");
+            }
+            if catch(|| illdim::illdim_edges(&mut tr, &mut g2, full)).is_none() {
+                tr.u_word("ill.section.edges", "", "panic");
             }
         }
         if tr.buf.len() > (1 << 19) {
